@@ -2146,7 +2146,21 @@ def G_rules(ctx, rule="G"):
                   "GraphInfo == compares node weights and (source, target, weight) of every edge",
                   "GraphInfo == compares only %s" % sorted(attrs))
         # every pairwise comparison is a conjunction starting from `true` (two empty sequences are equal)
-        from rules_build import conjunctive_consumer
+        from rules_build import conjunctive_consumer, iter_eq_same_projection
+        n_ie = 0
+        for bx in m.reach_bodies(eqb.id):
+            for bb, t in bx.calls():
+                if callee_path(t) == "std::iter::Iterator::eq" and len(t["args"]) >= 2:
+                    n_ie += 1
+                    iter_eq_same_projection(ctx, rule + "5", bx, bb, t, "GraphInfo ==")
+                    # self vs other: an elementwise comparison of a sequence with itself is always true
+                    sd = []
+                    for a in t["args"][:2]:
+                        ss = m.flow.sources_operand(bx, a, (), "taint")
+                        sd.append({q[2] for q in ss if q.kind == "param" and q[1] == eqb.id})
+                    if sd[0] and sd[1] and len(sd[0]) == 1 and sd[0] == sd[1]:
+                        ctx.bad(rule + "5", "sides|%s|%d" % (short(bx.id), n_ie), m.where(bx, bb),
+                                "an elementwise comparison inside GraphInfo == relates a sequence of one value to a sequence of the SAME value")
         nz = 0
         for bx in m.reach_bodies(eqb.id):
             for bb, t in bx.calls():
